@@ -192,3 +192,31 @@ prop( 'C15', [ 'B-ROUTE', 'D-REFUSE', 'C-MAIN', 'S-STATUS' ],
               'missing run-time one.',
       not_decided='textual route-path parsing (string -> segments) over all strings.',
       technique='exhaustive evaluation of a boolean AST over a finite abstract domain (decision-table check); dominance on the CFG' )
+
+prop( 'C01', [ 'T-TYPES', 'L-AGREE', 'T-SEGMENTS', 'T-NCP', 'A-OFFSETS', 'G-FRAME', 'L-SPEC', 'X-SERVICES', 'G-PRIMS' ],
+      decides='layout-agreement clauses.  T-TYPES: every CIP scalar class has the spec\'s (type code, width, signedness, little-endian byte order), '
+              'TYPE.produce packs and state_struct unpacks with the class format, TYPES_SUPPORTED and the 14-row typed_data dispatch are '
+              'consistent; L-AGREE: for each of the 24 registered service machines, every layout variant the producer branch can emit '
+              '(layout IR read off the produce AST: fixed fields with struct format and data path, pads, delegated codecs, repetitions, '
+              'status/struct guards) is accepted by the parser graph extracted from the builder code - same order, width, signedness, byte '
+              'order, data path, pads and status-guard constants; T-SEGMENTS: EPATH.SEGMENTS, the 31-opcode parser transition table and '
+              'EPATH.produce agree with the CIP segment encodings (8/16/32-bit logical, symbolic with odd pad, port with extended port and '
+              'address links, size in words, padded/single variants); T-NCP: Network Connection Parameter encode shifts = decode '
+              'shifts/masks = spec bit-fields, Large = +16 bits; A-OFFSETS: bundle offset arithmetic is 2+2N on all four sides; G-FRAME: '
+              'the 24-byte encapsulation header; L-SPEC: parser and reply-producer layouts equal the hand-written CIP spec layouts; '
+              'X-SERVICES: registered = dispatched = produced service sets.',
+      not_decided='value-dependent behaviour inside a matching layout (string truncation/NUL fill, float NaN round trip, the is_uerr '
+                  'look-ahead ambiguity), and that produced bytes re-parse equal for every value - a dynamic round-trip claim.',
+      technique='layout IR extraction from both the grammar-construction code (abstract interpretation) and the produce() ASTs, sequence '
+                'acceptance matching; spec-table comparison; linear normalisation' )
+
+prop( 'C14', [ 'L-SPEC', 'K-FORWARDS', 'L-AGREE', 'T-TYPES', 'T-SEGMENTS', 'T-NCP', 'A-OFFSETS', 'G-FRAME' ],
+      decides='spec-layout clause.  L-SPEC: for the messages an independent Logix client uses (Register Session, SendRRData/SendUnitData with '
+              'null-address/unconnected and connection-id/connected-data items, Unconnected Send, Forward Open small and large, Forward '
+              'Close, Read/Write Tag [Fragmented], Multiple Service Packet, Get/Set Attribute, List Identity item) the parser layout '
+              'extracted from cpppo accepts the layout written down independently from the CIP/Logix manuals field for field (format and '
+              'field identity), and every reply-producer variant is one of the spec reply layouts; K-FORWARDS: the key stored by '
+              'forward_open, the key UCMM.request builds for connected data and the prefix forward_close compares are the same '
+              '(peer host, peer port, O->T connection id) triple; plus the shared C01 layout rules.',
+      not_decided='a live pylogix session (values, statuses, timing) - the spec tables are the static stand-in for the reference encoder.',
+      technique='spec-table vs extracted-layout comparison; key-shape agreement across call sites' )
